@@ -49,8 +49,8 @@ ANCHORS = [
 
 def plan(tier):
     if tier == "quick":
-        return {"shards": 16, "trees": 200, "values": 8, "timeout": 300, "mirror": True}
-    return {"shards": 16, "trees": 12000, "values": 10, "timeout": 3000, "mirror": True}
+        return {"shards": 16, "trees": 200, "values": 8, "timeout": 900, "mirror": True}
+    return {"shards": 16, "trees": 12000, "values": 10, "timeout": 7200, "mirror": True}
 
 
 def collect_refs(node, out=None):
